@@ -71,6 +71,9 @@ CONSTS = [
     # C14
     ("NUM_BUCKETS", KAD + "routing_table.rs", const("NUM_BUCKETS")),
     ("K_BUCKET", KAD + "bucket.rs", r"if\s+self\.nodes\.len\(\)\s*<\s*(\d+)\s*\{"),
+    # C13
+    ("REQUEST_TIMEOUT_SECS", "src/protocol/request_response/mod.rs",
+     r"const\s+REQUEST_TIMEOUT\s*:\s*Duration\s*=\s*Duration::from_secs\(([^)]+)\)"),
 ]
 
 
